@@ -218,6 +218,17 @@ func (tr *FnTr) bytesEqual(a, b Val) *Term {
 		}
 		return tr.vc.Def("bytes_eq", And(cs...))
 	}
+	if ca, cb := a.L[2].IntConst(), b.L[2].IntConst(); ca != nil && cb != nil && ca.IsInt64() && ca.Int64() <= 80 {
+		// slices of a fixed small length: a plain conjunction, no quantifier
+		if ca.Cmp(cb) != 0 {
+			return tFalse
+		}
+		var cs []*Term
+		for k := int64(0); k < ca.Int64(); k++ {
+			cs = append(cs, Eq(Select(aa, Add(a.L[1], Int(k))), Select(ba, Add(b.L[1], Int(k)))))
+		}
+		return tr.vc.Def("bytes_eq", And(cs...))
+	}
 	r := tr.vc.Fresh("bytes_eq", SBool)
 	j := Sym("j!q", SInt)
 	same := Forall([]*Term{j}, Implies(And(Le(Int(0), j), Lt(j, a.L[2])), Eq(Select(aa, Add(a.L[1], j)), Select(ba, Add(b.L[1], j)))))
